@@ -39,6 +39,10 @@ def _is_num(e):
     return isinstance(e, ast.Constant) and isinstance(e.value, (int, float)) and not isinstance(e.value, bool)
 
 
+def _clone_expr(e):
+    return ast.parse(ast.unparse(e), mode="eval").body
+
+
 class _Canon(ast.NodeTransformer):
     """spelling-insensitive form used for every textual comparison of the rules:
        a > b -> b < a ; a >= b -> b <= a (one orientation of every order comparison; == / != operands sorted)
@@ -72,6 +76,11 @@ class _Canon(ast.NodeTransformer):
     _AXIS1 = {"argmax", "argmin", "sum", "mean", "max", "min", "prod", "cumsum"}
 
     def visit_Call(self, n):
+        if isinstance(n.func, ast.Name) and n.func.id == "list" and len(n.args) == 1 and not n.keywords and isinstance(n.args[0], ast.Call) \
+                and isinstance(n.args[0].func, ast.Name) and n.args[0].func.id == "map" and len(n.args[0].args) == 2 and isinstance(n.args[0].args[0], ast.Lambda) \
+                and len(n.args[0].args[0].args.args) == 1 and not n.args[0].args[0].args.defaults:
+            lam, it = n.args[0].args
+            return self._comp(ast.ListComp(elt=lam.body, generators=[ast.comprehension(target=ast.Name(id=lam.args.args[0].arg, ctx=ast.Store()), iter=it, ifs=[], is_async=0)]))
         n = self.generic_visit(n)
         f = n.func
         if isinstance(f, ast.Attribute) and isinstance(f.value, ast.Name) and f.value.id in ("np", "numpy") and n.args:
@@ -100,6 +109,42 @@ class _Canon(ast.NodeTransformer):
             if isinstance(r, ast.Name) and r.id == t and isinstance(n.value.op, (ast.Add, ast.Mult)):
                 return ast.AugAssign(target=n.targets[0], op=n.value.op, value=l)
         return n
+
+    # comprehensions: bound variables are named by position, a tuple target (a, b) is read as item[0], item[1]; list(map(lambda v: E, it)) is [E for v in it]
+    _depth = 0
+
+    def _comp(self, n):
+        d = self._depth
+        self._depth += 1
+        try:
+            mapping = {}
+
+            class Ren(ast.NodeTransformer):
+                def visit_Name(self_, x):
+                    if x.id in mapping and isinstance(x.ctx, ast.Load):
+                        return _clone_expr(mapping[x.id])
+                    return x
+            gens = []
+            for k, g in enumerate(n.generators):
+                it = Ren().visit(g.iter) if mapping else g.iter
+                var = f"_c{d}_{k}"
+                if isinstance(g.target, ast.Name):
+                    mapping[g.target.id] = ast.Name(id=var, ctx=ast.Load())
+                elif isinstance(g.target, (ast.Tuple, ast.List)) and all(isinstance(e, ast.Name) for e in g.target.elts):
+                    for i, e in enumerate(g.target.elts):
+                        mapping[e.id] = ast.Subscript(value=ast.Name(id=var, ctx=ast.Load()), slice=ast.Constant(value=i), ctx=ast.Load())
+                else:
+                    return self.generic_visit(n)
+                gens.append(ast.comprehension(target=ast.Name(id=var, ctx=ast.Store()), iter=it, ifs=[Ren().visit(c) for c in g.ifs], is_async=g.is_async))
+            if isinstance(n, ast.DictComp):
+                new = ast.DictComp(key=Ren().visit(n.key), value=Ren().visit(n.value), generators=gens)
+            else:
+                new = type(n)(elt=Ren().visit(n.elt), generators=gens)
+            return self.generic_visit(new)
+        finally:
+            self._depth -= 1
+
+    visit_ListComp = visit_SetComp = visit_GeneratorExp = visit_DictComp = _comp
 
     def visit_Subscript(self, n):
         n = self.generic_visit(n)
@@ -395,9 +440,14 @@ class ProgramModel:
                 except SyntaxError as e:
                     raise AnalysisError(f"cannot parse {rel}: {e}")
                 from .renames import undo_renames
+                from .shapes import undo_restructurings
                 renamed = undo_renames(tree, rel)
+                reshaped = undo_restructurings(tree, rel)
+                if reshaped:
+                    renamed.update(undo_renames(tree, rel))
                 self.units[mod] = Unit(mod, p, src, tree)
                 self.units[mod].renamed_locals = renamed
+                self.units[mod].reshaped = reshaped
         if not self.units:
             raise AnalysisError("no units parsed")
 
